@@ -239,6 +239,7 @@ def run(prog, chk):
         raise AnalysisBroken("String::fromBase64 not found")
     f = b64[0]
     base64_output_bound(chk, f)
+    hex_reads_covered(prog, chk, "C18.g")
     conversion_ranges(prog, chk, "C18.e")
     formatted_buffers(prog, chk, "C18.f")
 
@@ -451,3 +452,73 @@ def base64_output_bound(chk, f):
                 "capacity does not hide it)" % bad[1], evals=41)
     else:
         chk.ok("C18.d", f, "accepted lengths %s...: every output index lies below the reserved size" % accepted[:6], where, "41 input lengths evaluated over well-formed characters", evals=41)
+
+
+def hex_reads_covered(prog, chk, rid):
+    """fromHex(data, size) may look at data[0..size): for every read of the input - through a cursor or by index - the tests that
+    dominate it must fail in the situation where the byte read is the first one behind the input (its offset equals size) - otherwise
+    that read is of a byte that is not the caller's"""
+    chk.rule(rid, "VSA: in String::fromHex every read of the input (cursor[k], *cursor, data[i + k]) is dominated by a test that is false "
+                  "when the offset of the byte read equals size (evaluated under that hypothesis)", floor=1)
+    fs = [f for f in prog.functions.values() if f.name == "String::fromHex" and f.blocks and len(f.params) == 2]
+    if not fs:
+        raise AnalysisBroken("String::fromHex(data, size) not found")
+    f = fs[0]
+    dn, sn = f.params[0]["n"], f.params[1]["n"]
+    did = f.params[0]["id"]
+    # input cursors: pointer locals initialised from the data parameter; end pointers: data + size
+    cur, endp = {}, {}
+    for n in f.nodes:
+        if n["k"] == "DeclStmt":
+            for d in n["decls"]:
+                if d.get("init") is None or "*" not in (d.get("t") or ""):
+                    continue
+                t = q.no_casts(f.r(d["init"])).replace(" ", "").strip("()")
+                if t == dn:
+                    cur[d["id"]] = d["n"]
+                elif t in ("%s+%s" % (dn, sn), "%s+%s" % (sn, dn)):
+                    endp[d["id"]] = d["n"]
+    reads = []      # (node, base name or None for the parameter itself, index expression or None)
+    for i, n in enumerate(f.nodes):
+        if f.node_pos(i) is None:
+            continue
+        if n["k"] == "ArraySubscriptExpr":
+            b = f.nodes[f.strip(n["c"][0])]
+            if b["k"] == "DeclRefExpr" and (b["ref"].get("id") in cur or b["ref"].get("id") == did):
+                reads.append((i, b["ref"]["n"], n["c"][1]))
+        elif n["k"] == "UnaryOperator" and n.get("op") == "*":
+            b = f.nodes[f.strip(n["c"][0])]
+            if b["k"] == "DeclRefExpr" and (b["ref"].get("id") in cur or b["ref"].get("id") == did):
+                reads.append((i, b["ref"]["n"], None))
+    if not reads:
+        raise AnalysisBroken("String::fromHex: no read of the input found")
+    S, AT = 1000, 3
+    for i, bname, ix in reads:
+        val = {dn: S}
+        for c_ in cur.values():
+            val[c_] = S + AT
+        if ix is not None:
+            for x in [f.strip(ix)] + list(f.desc(ix)):
+                nx = f.nodes[x]
+                if nx["k"] == "DeclRefExpr" and nx["ref"].get("dk") in ("local", "parm") and "*" not in (nx["ref"].get("t") or "") and nx["ref"]["n"] != sn:
+                    val[nx["ref"]["n"]] = AT
+        k = fin.eval_expr(f, ix, val) if ix is not None else 0
+        if k is None or k < 0:
+            chk.bad(rid, f, "input-read-offset-unknown", f.where(i), "`%s` reads the input at an offset that could not be evaluated" % q.no_casts(f.r(i))[:40])
+            continue
+        off = (val[bname] - S) + k
+        val[sn] = off
+        for e_ in endp.values():
+            val[e_] = S + off
+        atoms = [a for a in fin.dominating_atoms(f, f.node_pos(i)) if a[0] != "case"]
+        refuted = False
+        for a in atoms:
+            v = fin.eval_expr(f, a[0], val)
+            if v is not None and bool(v) != bool(a[1]):
+                refuted = True
+        if refuted:
+            chk.ok(rid, f, "read `%s` is covered by the loop test" % q.no_casts(f.r(i))[:30], f.where(i), "a dominating test is false when the byte read lies at offset size", evals=len(atoms) + 1)
+        else:
+            chk.bad(rid, f, "input-read-beyond-size", f.where(i),
+                    "`%s` is reached although the byte it reads may be the first one behind the input (no dominating test fails when its offset "
+                    "equals size): for an odd size the byte behind the caller's buffer is read" % q.no_casts(f.r(i))[:40], evals=len(atoms) + 1)
